@@ -12,6 +12,7 @@ import PymaVerif.Model.Projector
 import PymaVerif.Model.Validate
 import PymaVerif.Model.Kpm
 import PymaVerif.Model.Taylor
+import PymaVerif.Model.Formats
 
 open Lean Pyma Pyma.Dsl Pyma.BlockDiag
 
@@ -548,6 +549,21 @@ def runProg (j : Json) : Except String (List String) := do
   pure out.reverse
 end ProgCmd
 
+
+/-! ## `keys`: key normalisation of Hamiltonian containers -/
+namespace KeysCmd
+def runKeys (j : Json) : Except String String := do
+  match j.getObjVal? "list_len" with
+  | .ok (.num n) =>
+      let ks := Pyma.Formats.listKeys n.mantissa.toNat
+      pure (String.intercalate ";" (ks.map fun k => String.intercalate "," (k.map toString)))
+  | _ =>
+    let keys ← (← getArr j "keys").toList.mapM fun kj => do
+      (← getArr kj "factors").toList.mapM fun f => do pure (← f.getObjValAs? String "s", ← f.getObjValAs? Nat "e")
+    let (syms, tuples) := Pyma.Formats.keysToTuples keys
+    pure (String.intercalate "," syms ++ "|" ++ String.intercalate ";" (tuples.map fun k => String.intercalate "," (k.map toString)))
+end KeysCmd
+
 /-! ## `taylor`: the Taylor term of a polynomial entry as `_sympy_to_BlockSeries` computes it -/
 namespace TaylorCmd
 def showRat (q : Rat) : String := s!"{q.num}/{q.den}"
@@ -588,6 +604,10 @@ partial def loop (h : IO.FS.Stream) : IO Unit := do
     | .ok "prog" =>
       match ProgCmd.runProg j with
       | .ok ls => IO.println (String.intercalate "|" ls)
+      | .error e => IO.println s!"bad-request {e}"
+    | .ok "keys" =>
+      match KeysCmd.runKeys j with
+      | .ok l => IO.println l
       | .error e => IO.println s!"bad-request {e}"
     | .ok "taylor" =>
       match TaylorCmd.runTaylor j with
